@@ -776,6 +776,11 @@ unit({
         {'file': 'src/Map/SavedGameUnits.cpp', 'qual': 'SavedGameUnits::CheckSizeOfUnit', 'cls': 'SavedGameUnits', 'cname': 'SavedGameUnits_CheckSizeOfUnit'},
         _mr('ReadSavedGameUnits', views=[(r'savedGameUnits\.objects[12]', 'vec')]),
         _mw('CreateHeader'), _mw('GetWidthInTilesLog2'), _mw('WriteContainerSize', static=True),
+        _mw('Write', ordinal=1, calls={'CreateHeader': T('Map_CreateHeader'),
+                                      'Write': {1: [(r'\(\*map\)\.tiles', T('Wr_Write', args=['vec'])), (r'.*', T('Wr_Write', args=['obj']))], 2: T('Wr_Write'),
+                                                ('uint32_t', 1): [(r'.*tileMappings', T('Writer_WriteSized_u32_vec_TileMapping', args=['ref'])), (r'.*terrainTypes', T('Writer_WriteSized_u32_vec_TerrainType', args=['ref']))]},
+                                      'WriteTilesetSources': T('Map_WriteTilesetSources_U', recv='none', args=['ref', 'ref']), 'WriteTileGroups': T('Map_WriteTileGroups_U', recv='none', args=['ref', 'ref'])},
+            views=[(r'\(\*map\)\.tiles', 'vec')]),
         _mw('WriteTilesetSources', static=True, members={}, rangefor={'tilesetSource': 'TilesetSource'}, views=[(r'\(\*tilesetSources\)', 'vec'), (r'\(\*tilesetSource\)\.tilesetFilename', 'str')],
             calls={'Write': {1: [(r'.*', T('Wr_Write', args=['obj']))], ('uint32_t', 1): [(r'.*tilesetFilename', T('Writer_WriteSized_u32_str', args=['ref']))]}, 'IsEmpty': N('TilesetSource_IsEmpty')}),
     ],
